@@ -1037,6 +1037,15 @@ class DistributedShampoo(torch.optim.Optimizer):
 
             # Check if gradient list is empty. If so, continue.
             if not state_lists[MASKED_BLOCKED_GRADS]:
+                # NOTE: If none of the blocks assigned to this rank has a gradient but blocks assigned
+                # to other ranks do, this rank still has to take the step (i.e., iterate the group step
+                # counter and participate in the communication of the distributor); otherwise the
+                # other ranks wait for this rank forever.
+                if any(state_lists[DISTRIBUTOR].global_grad_selector):
+                    state_lists[STEP].add_(1)
+                    state_lists[DISTRIBUTOR].update_params(
+                        masked_blocked_search_directions=()
+                    )
                 continue
 
             # Iterate group step counter and define Python scalar step.
